@@ -139,7 +139,7 @@ func sameErr(a, b error) (eq bool) {
 
 // ---------------------------------------------------------------- JS sources (positions matter: one construct per line)
 
-const srcJS = `(function(next, log, idx, kind) {
+const srcJS = `(function(next, log, idx, kind, boom) {
   if (kind === "J0") return function j0() {
     next();
   };
@@ -187,6 +187,22 @@ const srcJS = `(function(next, log, idx, kind) {
               return: function() { log(idx, "r"); throw new Error("ret"); }};
     };
     for (var x of it) { next(); }
+  };
+  if (kind === "JIU") return function jiu() {
+    var it = {};
+    it[Symbol.iterator] = function() {
+      var n = 0;
+      return {next: function() { return n++ ? {done: true} : {value: 1, done: false}; },
+              return: function() { log(idx, "r"); boom(); }};
+    };
+    for (var x of it) { next(); }
+  };
+  if (kind === "JGT") return function jgt() {
+    var g = (function*() { try { yield 1; } finally { log(idx, "f"); } })();
+    g.next();
+    try { next(); } catch (e) { log(idx, "c", e);
+      g.throw(e);
+    }
   };
   if (kind === "JY") return function jy() {
     var inner = function*() { yield 1; next(); };
@@ -256,6 +272,7 @@ var (
 var rethrowLine = map[string]int{}
 var rethrowCol int
 var creationLine int
+var genYieldLine int // line of the `yield` at which the generator of a JGT frame is suspended
 
 func init() {
 	lines := strings.Split(srcJS, "\n")
@@ -264,6 +281,9 @@ func init() {
 		if k := strings.Index(l, "kind === \""); k >= 0 {
 			rest := l[k+len("kind === \""):]
 			cur = rest[:strings.Index(rest, "\"")]
+		}
+		if cur == "JGT" && strings.Contains(l, "yield 1;") {
+			genYieldLine = i + 1
 		}
 		if strings.Contains(l, "throw e;") {
 			rethrowLine[cur] = i + 1
@@ -401,8 +421,9 @@ func (d *dynObj) Keys() []string                 { return nil }
 func (c *caseT) mkFrame(kind string, idx int, callee goja.Value) goja.Value {
 	r := c.r
 	switch kind {
-	case "J0", "JC", "JR", "JF", "JCF", "JRF", "JI", "JG", "JGF", "JA", "JAW", "JIT", "JY", "JYF":
-		return c.must(c.jsFacFor(idx)(goja.Undefined(), callee, r.ToValue(c.logFn), r.ToValue(idx), r.ToValue(kind)))
+	case "J0", "JC", "JR", "JF", "JCF", "JRF", "JI", "JG", "JGF", "JA", "JAW", "JIT", "JY", "JYF", "JIU", "JGT":
+		boom := r.ToValue(func(call goja.FunctionCall) goja.Value { panic(c.g.S8) })
+		return c.must(c.jsFacFor(idx)(goja.Undefined(), callee, r.ToValue(c.logFn), r.ToValue(idx), r.ToValue(kind), boom))
 	case "FC":
 		return r.ToValue(func(call goja.FunctionCall) goja.Value { c.callNext(callee); return goja.Undefined() })
 	case "FCS": // swallow whatever error the callee failed with
@@ -628,6 +649,9 @@ func (c *caseT) siteName(ex *goja.Exception) string {
 			if l == p.Line && p.Column == rethrowCol {
 				return "R" + idx
 			}
+		}
+		if p.Line == genYieldLine {
+			return "Y" + idx
 		}
 		return fmt.Sprintf("?%s:%d:%d", p.Filename, p.Line, p.Column)
 	}
